@@ -374,7 +374,16 @@ where
 
 fn big_ns(tier: Tier, group: u8) -> Vec<usize> {
     let mut v = vec![19, 20, 42, 43, 104, 105, 238, 239, 577, 578, 1257, 1258, 3463, 3464];
+    // one list beyond 2^20 entries (a power-of-two threshold a blocked implementation would use) in every run
+    if group == 0 {
+        v.push((1 << 20) + 1);
+    }
     if tier == Tier::Thorough {
+        if group == 0 {
+            v.extend_from_slice(&[(1 << 20) - 1, 1 << 20, (1 << 21) + 3, 3 * (1 << 20) + 1]);
+        } else {
+            v.extend_from_slice(&[(1 << 20) + 1]);
+        }
         v.extend_from_slice(&[6491, 6492, 17145, 17146, 33675, 33676, 60318, 60319]);
         if group == 0 {
             v.extend_from_slice(&[218188, 218189, 303279, 303280, 543650, 543651]);
@@ -494,7 +503,7 @@ pub fn def() -> PropDef {
             Box::new(Sub { name: "after-rejected-call", rule: "a valid list, then the same list with bit 255 set in one scalar (outside the property's domain; the panic, if any, is caught as a long-lived worker would), then 1..2 valid lists on the same thread, each compared with the model: a rejected call must not leave anything behind", quick: 200, thorough: 6_000, strategy: || boxed(after_rejected_strategy()), check: check_after_rejected }),
             Box::new(EnumSub { name: "large-windows", rule: "sum_of_products_pippinger with windows 17..=20 (a bucket pass costs ~2^w additions, so these are enumerated on one structured 7-entry list: G1 17..=20 and G2 17 in quick, both groups 17..=20 in thorough)", run: run_large, replay: replay_large, exhaustive: false }),
             Box::new(EnumSub { name: "window-heuristic", rule: "find_pippinger_window(n) within 1..=16 (enumerated; evidence counts each returned window once)", run: run_heuristic, replay: replay_heuristic, exhaustive: true }),
-            Box::new(EnumSub { name: "boundary-lists", rule: "default entry point on lists of length at every window-selection boundary +-1 (up to 3464 quick; up to 60319 / 543651 thorough) so that windows up to 9 (quick) / 16 (thorough) really run", run: run_big, replay: replay_big, exhaustive: false }),
+            Box::new(EnumSub { name: "boundary-lists", rule: "default entry point on lists of length at every window-selection boundary +-1 (up to 3464 quick; up to 60319 / 543651 thorough) so that windows up to 9 (quick) / 16 (thorough) really run; plus lists of 2^20+1 entries (quick, G1) and 2^20-1, 2^20, 2^21+3, 3*2^20+1 (thorough)", run: run_big, replay: replay_big, exhaustive: false }),
         ],
         assumptions: {
             let mut v = COMMON_ASSUMPTIONS.to_vec();
